@@ -30,6 +30,7 @@ class Module:
         self.classes: Dict[str, "ClassInfo"] = {}
         self.funcs: Dict[str, "FuncInfo"] = {}
         self.consts: Dict[str, ast.expr] = {}
+        self.star_imports: List[str] = []
         for node in ast.walk(self.tree):
             for ch in ast.iter_child_nodes(node):
                 ch._parent = node  # type: ignore[attr-defined]
@@ -204,6 +205,9 @@ class Model:
             else:
                 modname = st.module or ""
             for a in st.names:
+                if a.name == "*":
+                    m.star_imports.append(modname)
+                    continue
                 local = a.asname or a.name
                 m.imports[local] = ("sym", modname, a.name)
         elif isinstance(st, ast.ClassDef):
@@ -249,6 +253,12 @@ class Model:
             return ("const", m, m.consts[name])
         imp = m.imports.get(name)
         if imp is None:
+            for sm in m.star_imports:
+                t = self.modules.get(sm)
+                if t is not None:
+                    r = self.resolve_name(t, name, _seen)
+                    if r is not None:
+                        return r
             return None
         if imp[0] == "mod":
             return self.modules.get(imp[1])
